@@ -84,6 +84,7 @@ func checkC20(c *Ctx) {
 		"L-GLOBALS: every write to package-level state outside package initialisation is enumerated: it must happen inside a sync.Once body, under a held mutex, or through sync/atomic; anything else is reported (known findings are the API-level globals sm4.IV)",
 		"L-ONCE: state written by a sync.Once body is read only by that body, by methods of the state's own type (values of which are only handed out after the Once ran), or after a dominating call that runs the Once",
 		"L-ATOMIC: a struct field that is accessed through sync/atomic anywhere is accessed through sync/atomic everywhere",
+		"L-SHAREDSTATE: no stateful helper object (hash.Hash, cipher.Stream, cipher.BlockMode, bytes.Buffer) is stored in a structure reachable from the shared gmtls.Config — keys are kept as bytes and MAC / cipher objects are created per use",
 		"L-GUARDED: the fields documented as protected by a mutex (Config.sessionTicketKeys, the LRU session cache, halfConn state, CertPool is immutable after construction) are only touched with that mutex held or in the constructors",
 		"FX-C20-pure: the shared-object entry points (cipher.Block Encrypt/Decrypt, hash constructors and one-shot digests, sign/verify/encrypt/decrypt, certificate verification) write no memory reachable from their receiver or from package-level state")
 	c.NotDec = append(c.NotDec, "linearisability of Conn.Read/Write/Close (lock order and activeCall protocol are crypto/tls's; only the atomic-access and guarded-field rules are decided)", "exported package variables that users may assign concurrently (x509.ContentEncryptionAlgorithm)")
@@ -250,6 +251,72 @@ func checkC20(c *Ctx) {
 	sharedSliceImmutable(c, "L-PUBLISHED", "gmtls", "sessionTicketKeys", 4,
 		"the published ticket-key slice is replaced as a whole, never written in place",
 		"handshakes that obtained the slice through ticketKeys() read it without the lock, and clones of the Config share it: a rotation races with them and changes the keys of the clones")
+	c20SharedStateful(c)
+}
+
+// c20SharedStateful: a gmtls.Config is shared by every connection made from it. Any struct reachable from it through
+// fields, slices, arrays, pointers and maps therefore must not hold a STATEFUL helper object — a hash.Hash,
+// cipher.Stream, cipher.BlockMode or *bytes.Buffer — that connection code then drives: such an object is mutated by
+// Write/Reset/XORKeyStream/CryptBlocks without any lock common to the connections. (Keys are stored as bytes and the
+// HMAC / cipher objects are made per use.) Reported at the field; the interleaving is two connections on one Config.
+func c20SharedStateful(c *Ctx) {
+	rule := "L-SHAREDSTATE"
+	cfgFn := c.Fn("gmtls", "(*Config).Clone")
+	if cfgFn == nil {
+		c.Missing(rule, "gmtls.(*Config).Clone", "method", "not found")
+		return
+	}
+	cfgT := cfgFn.Params[0].Type().(*types.Pointer).Elem()
+	stateful := func(t types.Type) string {
+		s := t.String()
+		switch s {
+		case "hash.Hash", "crypto/cipher.Stream", "crypto/cipher.BlockMode", "*bytes.Buffer", "bytes.Buffer", "hash.Hash32", "hash.Hash64":
+			return s
+		}
+		return ""
+	}
+	seen := map[string]bool{}
+	n := 0
+	var visit func(t types.Type, path string, depth int)
+	visit = func(t types.Type, path string, depth int) {
+		if depth > 8 {
+			return
+		}
+		if what := stateful(t); what != "" {
+			c.Violated(rule, "gmtls.Config", "stateful object at "+path, "a "+what+" is reachable from the shared Config at "+path+": every connection made from the Config drives the same object (Reset/Write/Sum, XORKeyStream, CryptBlocks) with no common lock, so concurrent handshakes corrupt each other's MACs or key streams", token.NoPos)
+			return
+		}
+		switch u := t.(type) {
+		case *types.Named:
+			if u.Obj().Pkg() == nil || !strings.HasPrefix(u.Obj().Pkg().Path(), modPath) {
+				return // library types other than the stateful ones above
+			}
+			if seen[u.String()] {
+				return
+			}
+			seen[u.String()] = true
+			visit(u.Underlying(), path, depth)
+		case *types.Struct:
+			for i := 0; i < u.NumFields(); i++ {
+				n++
+				visit(u.Field(i).Type(), path+"."+u.Field(i).Name(), depth+1)
+			}
+		case *types.Pointer:
+			visit(u.Elem(), path, depth+1)
+		case *types.Slice:
+			visit(u.Elem(), path+"[]", depth+1)
+		case *types.Array:
+			visit(u.Elem(), path+"[]", depth+1)
+		case *types.Map:
+			visit(u.Elem(), path+"[]", depth+1)
+		}
+	}
+	visit(cfgT, "Config", 0)
+	if n < 20 {
+		c.Undecided(rule, "gmtls.Config", "fields reachable from Config", fmt.Sprintf("only %d fields visited", n), token.NoPos)
+		return
+	}
+	c.Holds(rule, "gmtls.Config", "no stateful hash/cipher object is reachable from the shared Config", fmt.Sprintf("%d fields of %d repository struct types visited", n, len(seen)), token.NoPos)
 }
 
 var c20GlobalExempt = map[string]string{
